@@ -211,7 +211,7 @@ def driver_verdicts(ctx, facts):
         raise vlib.BuildError("driver c10 summary: " + out[1][:200])
     sec, cur = {}, None
     for t in st[3:]:
-        if t in ("R", "C", "F", "S", "U", "P", "J"):
+        if t in ("R", "C", "F", "S", "U", "P", "J", "M"):
             cur = t if t != "R" else ("R2" if "R1" in sec else "R1")
             sec[cur] = []
         else:
@@ -232,6 +232,16 @@ def driver_verdicts(ctx, facts):
         problems.append("thread creation in the library is not exactly boot() -> filtering_recursion: %s" % sec.get("P"))
     if sec.get("J", []) != ["1" if disc["join_certified"] else "0"]:
         problems.append("Lean definition and translator's evaluation differ on the join certification: lean=%s translator=%s" % (sec.get("J"), disc["join_certified"]))
+    # thread confinement of the user's model objects, evaluated independently from the translator's facts
+    F_, reachC, reachF = facts["fields"], set(disc["reach"]["controller"]), set(disc["reach"]["filter"])
+    mids = [i for i, f in enumerate(F_) if f["cls"] == "user" and f["name"] in ("measurement_model_state", "likelihood_model_state", "initialization_state")]
+    rowsC = {a["field"] for a in facts["accesses"] if a["meth"] in reachC}
+    rowsF = {a["field"] for a in facts["accesses"] if a["meth"] in reachF}
+    confined = len(mids) == 3 and all(i not in rowsC and i in rowsF for i in mids)
+    facts["model_confined"] = {"fields": [F_[i]["name"] for i in mids], "confined": confined,
+                               "controller_rows": sorted(F_[i]["name"] for i in mids if i in rowsC)}
+    if sec.get("M", []) != ["1" if confined else "0"]:
+        problems.append("Lean definition and translator's evaluation differ on the confinement of the model objects: lean=%s translator=%s" % (sec.get("M"), confined))
     if set(verdicts) != set(mirror) or any(verdicts[n]["ok"] != mirror[n]["ok"] for n in verdicts if n in mirror):
         problems.append("translator's evaluation and Lean's evaluation of the discipline differ: lean=%s mirror=%s" % (
             sorted(n for n, v in verdicts.items() if not v["ok"]), sorted(n for n, v in mirror.items() if not v["ok"])))
@@ -259,6 +269,11 @@ def tsan_cases(ctx):
     for kind in ("kf", "sis"):
         for _ in range(ctx.n(1, 3)):
             cases.append("initfail %s %d" % (kind, g.r.randint(1, 10 ** 6)))     # failing, slow initialisation vs commands
+    # every command while the filtering thread leaves its recursion for good / after it has ended, before the join
+    for kind in (("kf", "sis") if ctx.quick() else KINDS):
+        for mode in ("teardown", "expire"):
+            for _ in range(ctx.n(1, 3)):
+                cases.append("exit %s %d %s" % (kind, g.r.randint(1, 10 ** 6), mode))
     if not ctx.quick():
         cases.append("extlog kf %d LOG" % g.r.randint(1, 10 ** 6))      # advisory: logging reconfigured while stepping
         cases.append("extlog sis %d LOG" % g.r.randint(1, 10 ** 6))
@@ -326,6 +341,7 @@ def run(ctx):
     unpredicted = []       # (key, what, case, report)
     other_warnings = {}
     afterwait_reports = []
+    foreign_model = []
     advisory_observed = set()
     for ci, line in enumerate(cases):
         r = run_tsan_case(binary, line, timeout=ctx.n(60, 240))
@@ -335,6 +351,12 @@ def run(ctx):
         if (r["out"] == "timeout" or not r["out"].startswith("ok")) and not line.startswith("extlog"):
             timeouts += 1
             ctx.notes.append("run did not complete: %s -> %s" % (line, r["out"][:80]))
+        mfc = re.search(r"foreign_model_calls=(\d+)", r["out"])
+        if mfc and int(mfc.group(1)) > 0 and not line.startswith("extlog"):
+            # direct observation (no race detector needed): a controller command executed a virtual function of one of the
+            # harness's model objects (measurement / likelihood / state / exogenous / initialisation model = user code that
+            # belongs to the filtering thread) on the controller thread
+            foreign_model.append((r, int(mfc.group(1))))
         if line.startswith("extlog"):
             # advisory case (enable_log / disable_log are not commands of the property): compare with the advisory
             # prediction, never a violation
@@ -399,6 +421,20 @@ def run(ctx):
             continue
         seen.add(key)
         ctx.violation(key, what, {"harness": "h_race (tsan build)", "command": r["cmd"], "input_line": r["line"], "tsan_report": rep["text"][:5000]})
+    mc = facts.get("model_confined", {})
+    if mc and not mc.get("confined", True) and not foreign_model:
+        ctx.violation("model-hook-on-controller-thread",
+                      "a function reachable from a control command calls into the user's model objects (%s; table_model_confined fails) "
+                      "— no harness run made the controller thread execute such a call" % ", ".join(mc.get("controller_rows") or mc.get("fields", [])),
+                      {"model_confined": mc}, no_input=True)
+    if foreign_model:
+        r, n = min(foreign_model, key=lambda x: len(x[0]["line"]))
+        ctx.violation("model-hook-on-controller-thread",
+                      "a control command executed a virtual function of a model object (measurement / likelihood / state / exogenous / "
+                      "initialisation model) on the controller thread while the filtering thread owns it (%d call(s) in `%s`, %d run(s)); "
+                      "model_confined / table_model_confined say no command reaches these calls" % (n, r["line"], len(foreign_model)),
+                      {"harness": "h_race (tsan build)", "command": r["cmd"], "input_line": r["line"], "observed": r["out"][-300:],
+                       "runs_affected": len(foreign_model)})
     for p in problems:
         ctx.violation("correspondence:translator-vs-lean", p, {"problem": p}, no_input=True)
 
@@ -408,6 +444,9 @@ def run(ctx):
         if r["line"].startswith("initfail"):
             hist["initfail"] = hist.get("initfail", 0) + 1
             continue
+        if r["line"].startswith("exit"):
+            hist["exit " + r["line"].split()[3]] = hist.get("exit " + r["line"].split()[3], 0) + 1
+            continue
         if r["line"].startswith("extlog"):
             hist["extlog (advisory)"] = hist.get("extlog (advisory)", 0) + 1
             continue
@@ -416,7 +455,7 @@ def run(ctx):
             continue
         for tok in r["out"].split()[1:]:
             k, _, v = tok.partition("=")
-            if k in ("steps", "cmds", "logging", "kind"):
+            if k in ("steps", "cmds", "logging", "kind", "mode"):
                 continue
             if "/" in v:
                 a, b = v.split("/")
@@ -451,6 +490,8 @@ def run(ctx):
         "functions_handing_out_references": sum(1 for m in facts["methods"] if m.get("escapes")),
         "join_certified": facts["discipline"]["join_certified"],
         "thread_handle_operations": ["%s: %s (line %d)" % (facts["methods"][t["meth"]]["qual"], t["op"], t["line"]) for t in facts.get("thread_ops", [])],
+        "model_objects_confined_to_filtering_thread": facts.get("model_confined"),
+        "runs_with_model_calls_on_controller_thread": len(foreign_model),
         "afterwait_runs": sum(1 for r in runs if r["line"].startswith("afterwait")), "afterwait_reports": len(afterwait_reports),
         "translator_cross_check": {"rule": "every identifier naming a data member (…_) inside the source extent of a member function has a table row",
                                    "functions_scanned": sum(1 for m in facts["methods"] if m["body"] and m.get("end_line")),
